@@ -61,6 +61,9 @@ pub struct C01 {
 
 impl NodeMon for C01 {
     fn node(&mut self, n: &Node, rep: &mut Report, rng: &mut Rng) {
+        if n.diverged {
+            return;
+        }
         let b = n.b;
         let fen = n.p.fen();
         rep.eval();
@@ -244,6 +247,9 @@ pub struct C02 {
 
 impl NodeMon for C02 {
     fn node(&mut self, n: &Node, rep: &mut Report, rng: &mut Rng) {
+        if n.diverged {
+            return;
+        }
         let b = n.b;
         let before = *b;
         let before_obs = observe(b);
@@ -1412,6 +1418,9 @@ impl NodeMon for C17 {
         self.inc_h = None;
     }
     fn node(&mut self, n: &Node, rep: &mut Report, rng: &mut Rng) {
+        if n.diverged {
+            return;
+        }
         rep.seen(hash_bytes(&pack(n.p, n.p.ep)));
         if n.ply == 0 {
             self.inc_v = None;
